@@ -106,6 +106,10 @@ def cx_to_ir(n):
         return S("return", i[0] if i else None, src=n)
     if k == "NullStmt":
         return Seq([])
+    if k == "InlineBlock":         # body of an inlined helper with early returns (sa/cxinline.py)
+        return S("block", n.get("label"), cx_to_ir(cxfe.kids(n)[0]), src=n)
+    if k == "InlineLeave":
+        return S("leave", n.get("label"), src=n)
     if k in ("GotoStmt", "LabelStmt", "CXXTryStmt", "CXXThrowExpr", "CXXForRangeStmt"):
         raise AnalysisError("%s: idiom not modelled (%s:%s)" % ((k,) + cxfe.loc(n)))
     return S("atom", n, src=n)
@@ -127,6 +131,8 @@ def _walk_ir(s):
     elif s.k == "switch":
         for _, b in s.b:
             yield from _walk_ir(b)
+    elif s.k == "block":
+        yield from _walk_ir(s.b)
 
 
 def walk_ir(s):
@@ -151,6 +157,8 @@ def _inside_loop(root, target):
                         return r
         elif s.k == "loop":
             return rec(s.b, True)
+        elif s.k == "block":
+            return rec(s.b, inloop)
         elif s.k == "switch":
             for _, b in s.b:
                 r = rec(b, inloop)
@@ -222,10 +230,11 @@ class Client:
 
 
 class _Out:
-    __slots__ = ("normal", "brk", "cont")
+    __slots__ = ("normal", "brk", "cont", "leave")
 
-    def __init__(self, normal=None, brk=None, cont=None):
+    def __init__(self, normal=None, brk=None, cont=None, leave=None):
         self.normal, self.brk, self.cont = normal, brk, cont
+        self.leave = leave or {}      # label of an enclosing inlined block -> state jumping to its end
 
 
 class Engine:
@@ -245,6 +254,14 @@ class Engine:
         if len(r) > self.max:
             raise AnalysisError("path-fact engine: more than %d configurations" % self.max)
         return r
+
+    def jleave(self, a, b):
+        if not a:
+            return dict(b) if b else {}
+        out = dict(a)
+        for k, v in (b or {}).items():
+            out[k] = self.join(out.get(k), v)
+        return out
 
     def _map(self, st, f):
         if st is None:
@@ -287,6 +304,7 @@ class Engine:
                 o.normal = r.normal
                 o.brk = self.join(o.brk, r.brk)
                 o.cont = self.join(o.cont, r.cont)
+                o.leave = self.jleave(o.leave, r.leave)
                 if o.normal is None:
                     break
             return o
@@ -298,7 +316,8 @@ class Engine:
             e = self._map(st, lambda cfg: c.assume(s.a, False, cfg))
             r1 = self.ex(s.b, t)
             r2 = self.ex(s.c, e) if s.c is not None else _Out(e)
-            return _Out(self.join(r1.normal, r2.normal), self.join(r1.brk, r2.brk), self.join(r1.cont, r2.cont))
+            return _Out(self.join(r1.normal, r2.normal), self.join(r1.brk, r2.brk), self.join(r1.cont, r2.cont),
+                        self.jleave(r1.leave, r2.leave))
         if k == "loop":
             return self.loop(s, st)
         if k == "switch":
@@ -312,11 +331,19 @@ class Engine:
                 r = self.ex(body, ent)
                 o.normal = self.join(o.normal, r.normal)
                 o.cont = self.join(o.cont, r.cont)
+                o.leave = self.jleave(o.leave, r.leave)
                 if r.brk is not None:
                     raise AnalysisError("break escaping a case body")
             if not has_default:
                 o.normal = self.join(o.normal, st)
             return o
+        if k == "block":
+            r = self.ex(s.b, st)
+            lv = dict(r.leave)
+            mine = lv.pop(s.a, None)
+            return _Out(self.join(r.normal, mine), r.brk, r.cont, lv)
+        if k == "leave":
+            return _Out(None, None, None, {s.a: st})
         if k == "break":
             return _Out(None, st, None)
         if k == "continue":
@@ -345,7 +372,7 @@ class Engine:
             tail = self._map(tail, lambda cfg: c.cond(s.a, cfg))
             back = self._map(tail, lambda cfg: c.assume(s.a, True, cfg))
             exit_ = self._map(tail, lambda cfg: c.assume(s.a, False, cfg))
-            return back, self.join(exit_, r.brk)
+            return back, self.join(exit_, r.brk), r.leave
 
         def once(h):
             if s.d == "do":
@@ -362,13 +389,13 @@ class Engine:
             back = self.join(r.normal, r.cont)
             for stp in s.c:
                 back = self.ex(stp, back).normal if back is not None else None
-            return back, self.join(exit_, r.brk)
+            return back, self.join(exit_, r.brk), r.leave
 
         head = entry
         self.silent += 1
         try:
             for _ in range(64):
-                back, _after = once(head)
+                back, _after, _lv = once(head)
                 new = self.join(entry, back)
                 if new == head:
                     break
@@ -377,5 +404,5 @@ class Engine:
                 raise AnalysisError("loop fixpoint not reached")
         finally:
             self.silent -= 1
-        back, after = once(head)
-        return _Out(after)
+        back, after, lv = once(head)
+        return _Out(after, None, None, lv)
